@@ -124,7 +124,15 @@ def filter_update(u):
     problem = mk_problem(u)
     rho = u.real("self_rho")
     u.assume(rho > 0)
-    s = u.obj(PEN + "ObjectivePenaltyFilter", problem=problem, params=params, rho=rho)
+    # the filter object after an ARBITRARY history of earlier updates: built by its real constructor, then every
+    # numeric field the constructor set is arbitrary (rho > 0 is the C16 invariant; anything else the object may
+    # remember - a field a later version adds - carries no invariant)
+    s = u.construct(PEN + "ObjectivePenaltyFilter", problem, params)
+    for fname, fval in list(s.fields.items()):
+        if fname == "rho":
+            s.fields[fname] = rho
+        elif isinstance(fval, (int, float)) and not isinstance(fval, bool) or (z3.is_expr(fval) and (z3.is_real(fval) or z3.is_int(fval))):
+            s.fields[fname] = u.real("self_" + fname)
     sym_entries(u, s)
     prev = mk_iterate(u, problem, params, "prev")
     nxt = mk_iterate(u, problem, params, "next")
